@@ -14,11 +14,22 @@ META = dict(
                "in 4 s is a failure whose class names the crash site. Machine-checked theorems (coq/Props/C07.v) about the model coq/theories/OpenFile.v of "
                "the STORAGE layer (recovery log repair / parse / replay, the three back-ends' new and read, read_records with header, size and version "
                "checks, the record table sizing, value_as_bytes) and of load_db_value (coq/theories/ValueIndex.v): see the Props file for which statements "
-               "are full and which are `_partial`; the full property (totality of the whole open + read path incl. root record, DbVec / graph / map loaders "
-               "and queries) is stated there in a comment and is NOT proved above the storage layer — above it the evidence is the mutation run. "
+               "are full and which are `_partial`. Above the storage layer (round 5): the model coq/theories/LoadOutcome.v of the LOAD of the whole database "
+               "on an arbitrary record store (DbImpl::try_new_with_storage: root record incl. the legacy-format test, DbGraph / DbIndexedMap / DbIndexes / "
+               "DbKeyValues::from_storage with the checked vector length, every index key through load_db_value; then the complete read of every "
+               "component) with theorem C07_db_load_total_partial: for EVERY record map the outcome is a database or an error, or the panic of "
+               "load_db_value for an unknown type nibble (the one listed site = known class panic-db_value-explicit-panic; "
+               "C07_db_load_total_with_type_check: with that check the model never panics), never a read buffer above the limit; PARTIAL: the model stops "
+               "at two write paths (no root record -> a database is created; a 40..47 byte root record -> legacy conversion) and the QUERIES that read an "
+               "opened damaged database lazily are not modelled — for those the evidence is the mutation run. "
                "The model is tied to /repo on every run: for each damaged input of at most 1200 bytes the outcome class of the real Storage::new "
                "(verification hook wrapper) per back-end and, when it opens, the file length and every record value (indexes 1..24) are compared with "
-               "the extracted model; the model revision (which bounds checks are present) is read off the source tree.",
+               "the extracted model; the model revision (which bounds checks are present) is read off the source tree. Database level, every run: for each "
+               "damaged input of at most 65536 bytes whose storage layer opens and whose live records are all readable, the raw record map (read through "
+               "VStorage<FileStorage> on a copy) is fed to the extracted load_outcome and the class of its open phase must equal the class of DbFile::new "
+               "on the same bytes (opens / error / panic-db_value-explicit-panic / alloc); when the model loads the whole database its ordered dump is "
+               "also compared with the dump of the opened real database and the agreements are COUNTED (the real reads go lazily through the query "
+               "layer, so on a damaged store a difference there is not a disagreement).",
     design_ref="DESIGN.md §5 C07",
     level_note="Trusted: Coq kernel, extraction (ExtrOcamlBasic), OCaml driver, Rust harness (mutation generators, worker processes, setrlimit, "
                "allocation tracker, addr2line for call chains). The harness is built with debug assertions (arithmetic overflow panics are counted). "
@@ -136,6 +147,10 @@ def run(ctx):
         return "model-open-" + (m.split(" ")[0] if m else "none") + "-vs-" + (x.split(" ")[0] if x else "none")
 
     dis = diff_lines(cases, model, impl, cls=cls)
+    # above the storage layer: the record store of every damaged input (<= 65536 bytes) whose storage layer opens -> extracted load_outcome
+    run_driver_parallel(exe, os.path.join(w, "cases_db.txt"), os.path.join(w, "model_db.txt"))
+    dis_db, stats_db = compare_db(w)
+    dis += dis_db
     failures = [dict(cls=l.split(" ")[0], what=l[:3000]) for l in read_lines(os.path.join(w, "oracle.txt"))]
     if guards[3] == "1":
         # the tree has the log position check: the two classes it repairs are no longer accepted as known findings
@@ -144,6 +159,7 @@ def run(ctx):
                 f["cls"] = "regressed-" + f["cls"]
     dist, ev, nt, samples = merge_stats([os.path.join(w, "stats.json")])
     dist = {k: v for k, v in dist.items() if not k.startswith("guided-available")}
+    dist.update({"dbload-" + k: v for k, v in stats_db.items()})
     return dict(
         evaluations=ev, distinct_nontrivial=nt, samples=samples[:12], dist=dist,
         rule="seed files built with the public API (empty; nodes+edges+values+aliases+indexes; rich values; after removals, not optimised: free regions; "
@@ -155,6 +171,9 @@ def run(ctx):
              "full read in a worker process (time limit 4 s, RLIMIT_AS 2 GiB, allocation limit 65536 + 1024 x input length); stored witnesses of "
              "corpus/C07 replayed; a plain storage file (records, free region, free index) and all inputs up to 1200 bytes additionally opened at the "
              "storage layer and compared with the model (revision bits %s = read, table, log framing, log position checks present in the tree); "
+             "every input of at most 65536 bytes additionally as a `dbload` job: its record store (every live record read through the storage layer "
+             "alone, on a copy) is the input of the extracted load_outcome, compared with DbFile::new on the same bytes (class of the open: opens / "
+             "error / panic site / allocation; skipped when the storage layer does not open the file or a live record reaches beyond the end of the file); "
              "non-trivial = distinct damaged input that still opened and was read completely"
              % (("; plus unoptimised rich, 70 aliases, two indexes, 150-node seeds" if ctx.tier == "thorough" else ""),
                 ("all" if ctx.tier == "thorough" else "400 sampled"),
@@ -162,5 +181,10 @@ def run(ctx):
         failures=failures, disagreements=dis,
         assumptions=["the file and its recovery log are the only inputs: no concurrent writer, no I/O errors other than end of file",
                      "an allocation request is called enormous above 65536 + 1024 x (file length + log length) bytes"],
-        notes=["model revision bits read off the source tree: %s" % guards],
+        notes=["model revision bits read off the source tree: %s" % guards,
+               "database-level correspondence (load_outcome vs DbFile::new): %d record stores compared, %d disagreements; open classes %s; "
+               "when both load, same ordered dump in %d cases, other observations through the lazy query layer in %d (counted, not demanded)"
+               % (sum(v for k, v in stats_db.items() if k.startswith("open:")), len(dis_db),
+                  ", ".join("%s=%d" % (k[5:], v) for k, v in sorted(stats_db.items()) if k.startswith("open:")),
+                  stats_db.get("read:loaded-same-dump", 0), sum(v for k, v in stats_db.items() if k.startswith("read:loaded-real-")))],
     )
